@@ -83,6 +83,21 @@ struct VolRoundtrip : Family {
 			if (r.chance(1, 10)) f.set("link", 1); // the listed path is a symbolic link to the file holding the bytes
 			p.world.push_back(f);
 		}
+		// payloads with structure (zero runs aligned to powers of two, repeats): some members get one, and now and then the member that sorts
+		// last is a power-of-two multiple ending in (or made of) zeros - where a copy loop that treats zero blocks specially ends the archive
+		for (auto& l : p.world) if (l.verb == "file" && r.chance(1, 12)) l.set("pat", 1 + r.below(6));
+		if (r.chance(1, 25)) {
+			uint64_t k = r.range(12, thorough ? 21 : 20), m = r.range(1, 2);
+			Line f = mkline("world", "file");
+			std::string nm = std::string("~~zz") + std::to_string(r.below(10));
+			bool clash = false; for (auto& o : names) if (ref::nameEqualNoCase(o, nm)) clash = true;
+			if (!clash) {
+				names.push_back(nm);
+				f.set("dir", dirName(r.below(ndirs))).set("name", quoteToken(nm)).set("cseed", hex64(r.next())).set("len", m << k).set("sp", r.below(6)).set("pat", m == 1 ? 1 : 2);
+				p.world.push_back(f);
+				if ((m << k) > 100000) bigSeen = true;
+			}
+		}
 		// pack order: a permutation of the files
 		for (size_t i = p.world.size(); i > 1; --i) std::swap(p.world[i - 1], p.world[r.below(i)]);
 		swarmEnv(p, r, true, true, bigSeen);
@@ -150,8 +165,9 @@ struct VolRoundtrip : Family {
 				if (in.name.empty() || in.name.find('/') != std::string::npos || in.name == "." || in.name == "..") throw std::runtime_error("bad file name in plan");
 				std::string dir = l.get("dir", "-");
 				if (dir == "-") dir.clear();
-				in.data = prngBytes(l.u("cseed"), static_cast<size_t>(l.u("len")));
-				if (in.data.size() > (1u << 20)) throw std::runtime_error("file too large");
+				if (l.u("len") > (4u << 20)) throw std::runtime_error("file too large");
+				in.data = patternBytes(l.u("cseed"), static_cast<size_t>(l.u("len")), l.u("pat", 0));
+				if (l.u("pat", 0)) ctx.count("probe.patterned_payload");
 				in.onDisk = dir.empty() ? in.name : dir + "/" + in.name;
 				in.path = spell(dir, in.name, l.u("sp"));
 				if (!dir.empty()) disk::mkdirs(dir + "/_s");
